@@ -2,6 +2,9 @@ import Logrange.Proofs.Wire
 import Logrange.Proofs.EscapeJson
 import Logrange.Proofs.PosStr
 import Logrange.Proofs.WireFields
+import Logrange.Proofs.C13KV
+import Logrange.Proofs.Format
+import Logrange.Model.Where
 import Logrange.Model.Nesting
 /-!
 # C13 — No request content can crash the server-side decoders and evaluators
@@ -69,6 +72,45 @@ theorem never_reads_outside (buf : Bytes) (h : IsGoSlice buf) :
   have := wpInit_inv kv buf h it hit
   rw [← this.2]; exact this.1.2
 
+/-- **The drain loop terminates, with a bound in terms of the buffer**: whatever the (client-controlled, up to 2³²−1) count
+field says, a consumer that calls `Get`, stops at `io.EOF`, and calls `Next`, is done within `(bytes left) + 2` iterations —
+every event that is not served from the cache consumed at least the 8 bytes of its timestamp (`unmarshalLogEvent_ge`: there
+are no zero-byte events, the loop cannot spin). Also within `(count − cur) + 2` iterations (every uncached `Get` increments
+`cur`), which is the fuel the model's `wpDecode` uses; so the whole Write decoding never runs out of fuel. For every `kv`
+and every buffer (no hypothesis on the content). -/
+theorem wpDrain_terminates (kv : Bytes → Option Bytes) (it : WpIter) (acc : List Wire.Event) (fuel : Nat) :
+    (it.pos ≤ it.buf.length → it.buf.length - it.pos + 2 ≤ fuel → (wpDrain kv fuel it acc).isOutOfFuel = false) ∧
+    (it.recs - it.cur + 2 ≤ fuel → (wpDrain kv fuel it acc).isOutOfFuel = false) ∧
+    (∀ buf, (wpDecode kv buf).isOutOfFuel = false) := by
+  refine ⟨?_, ?_, ?_⟩
+  · intro hp hf
+    refine wpDrain_terminates_buf kv fuel it acc hp ?_
+    split <;> omega
+  · intro hf
+    refine wpDrain_terminates_cnt kv fuel it acc ?_
+    split <;> omega
+  · intro buf
+    unfold wpDecode
+    have h0 := wpInit_noFuel kv buf
+    cases hi : wpInit kv buf with
+    | ok it0 =>
+      rw [bind_ok]
+      obtain ⟨hr, _⟩ := wpInit_fresh kv buf it0 hi
+      have hd := wpDrain_terminates_cnt kv (wpFuel it0) it0 [] (by rw [hr]; unfold wpFuel; simp)
+      cases hdr : wpDrain kv (wpFuel it0) it0 [] with
+      | ok evs => rfl
+      | err => rfl
+      | panic w => rfl
+      | outOfFuel => rw [hdr] at hd; cases hd
+    | err => rfl
+    | panic w => rfl
+    | outOfFuel => rw [hi] at h0; cases h0
+
+/-- non-vacuity: a fresh iterator over a 24-byte body that announces 2³²−1 events is drained with fuel 26 -/
+def hostileIter : WpIter := ⟨[], [], List.replicate 24 0, false, 0, 4294967295, 0, default⟩
+example (kv : Bytes → Option Bytes) (acc : List Wire.Event) : (wpDrain kv 26 hostileIter acc).isOutOfFuel = false :=
+  (wpDrain_terminates kv hostileIter acc 26).1 (by decide) (by decide)
+
 /-- the former F13 witness: a Write body whose first field (the tags) announces the length 2⁶⁴−1 -/
 def f13Witness : Bytes := [0xff, 0xff, 0xff, 0xff, 0xff, 0xff, 0xff, 0xff, 0xff, 0x01]
 
@@ -104,6 +146,12 @@ It only ever sees records the server marshalled itself (see the file header). -/
 theorem record_decode_total_partial (buf : Bytes) (h : Safe buf) :
     (Event.unmarshal buf).isPanic = false ∧ ∀ n e, Event.unmarshal buf = .ok (n, e) → n ≤ buf.length :=
   good_event buf h
+
+/-- the regenerated fact behind "it only ever sees records the server marshalled itself": outside tests and verif-tagged
+exports, `LogEvent.Unmarshal(buf, bool)` is called from exactly these files — the journal-record iterator and the index
+rebuild. A new caller (for instance a request path) changes the list and breaks this obligation. -/
+theorem record_decoder_callers :
+    Generated.C13.logEventUnmarshalCallers = ["pkg/model/iterator.go", "pkg/tmindex/cindex.go"] := by decide
 
 /-- non-vacuity: a real stored record (`ts = 1`, message `m`, fields `01 'c' 01 'd'`) meets the hypothesis -/
 def validRecord : Bytes := [0x21, 0, 0, 0, 0, 0, 0, 0, 1, 1, 109, 4, 1, 99, 1, 100]
@@ -199,6 +247,76 @@ theorem f44_witness_rejected :
     WireFields.build id unqWitness [[107], [34, 118, 0xff, 34]] = some [1, 107, 4, 118, 0xEF, 0xBF, 0xBD] := by
   constructor <;> decide
 
+/-! ## the text parsers of kvstring / tag / field (C08's model) -/
+
+/-- **`kv_total`.** C08's models of `RemoveCurlyBraces`, `SplitString`, `TrimSpaces`, `ToMap`, `tag.Parse` and
+`NewFieldsFromKVString` are total functions by structural recursion over the input (no index arithmetic, no panic outcome):
+every byte string gets a value or an error. For such models "never reads outside its input" means that what they return is
+made of the input's bytes in place — `TrimSpaces` and `RemoveCurlyBraces` return a contiguous piece of their argument — and
+that the field builder on top of them only yields well-formed lists. That the *code* (which does index: `str[idx]`,
+`str[i:j+1]`, `endIdx`) agrees with these models, also where an index slip would panic, is the differential correspondence
+of C08's harness and of C13's `robust` section (under `recover`; corpus case `""""\`). -/
+theorem kv_total (s : Bytes) :
+    KV.trimSpaces s <:+: s ∧
+    (∀ t, KV.removeCurlyBraces s = some t → t <:+: s) ∧
+    (∀ f, FieldsKV.fromKV s = some f → WireFields.WF f) ∧
+    ((KV.splitString s).isSome ∨ KV.splitString s = none) ∧ ((KV.toMap s).isSome ∨ KV.toMap s = none) ∧
+    ((Tags.parse s).isSome ∨ Tags.parse s = none) := by
+  refine ⟨C13KV.trimSpaces_infix s, C13KV.removeCurlyBraces_infix s,
+    C13KV.fromKV_WF (by decide) (by decide) (by decide) s, ?_, ?_, ?_⟩
+  · cases KV.splitString s <;> simp
+  · cases KV.toMap s <;> simp
+  · cases Tags.parse s <;> simp
+
+/-- **The whole server-side decoding of a Write request with the modelled `NewFieldsFromKVString`** (C08's `FieldsKV.fromKV`
+in the place of the parameter `kv`): for every request body it ends, without a panic, and every event it hands to the
+partition has a well-formed field list. -/
+theorem write_decode_total_kv (buf : Bytes) (h : IsGoSlice buf) :
+    (wpDecode FieldsKV.fromKV buf).isPanic = false ∧ (wpDecode FieldsKV.fromKV buf).isOutOfFuel = false ∧
+    ∀ tags evs, wpDecode FieldsKV.fromKV buf = .ok (tags, evs) → ∀ e ∈ evs, WireFields.WF e.fields := by
+  refine ⟨(decode_total FieldsKV.fromKV buf h).2.2.1, (wpDrain_terminates FieldsKV.fromKV default [] 0).2.2 buf, ?_⟩
+  intro tags evs hd
+  have hkv : ∀ s f, FieldsKV.fromKV s = some f → WireFields.WF f := fun s f hs => (kv_total s).2.2.1 f hs
+  unfold wpDecode at hd
+  obtain ⟨it, hit, hd⟩ := bind_eq_ok hd
+  obtain ⟨evs', hdr, hd⟩ := bind_eq_ok hd
+  cases hd
+  exact WireFields.wpDrain_WF _ hkv _ it [] evs (WireFields.wpInit_FInv _ hkv buf it hit) (by simp) hdr
+
+/-! ## format strings and filters -/
+
+/-- **`format_total`.** `model.NewFormatParser` passes every bounds check for all format strings and every behaviour of
+`strings.ToLower` (which may change the length of the text between the braces); and the two places where
+`FormatParser.FormatStr` indexes into an event — `Fields.Value` for `{vars:name}` and `Fields.AsKVString` for `{vars}` — are
+total on every stored (well-formed) field list. (`time.Format` and `tag.Parse` are total library / C08 functions;
+`{msg.json()}` is `escapeJson_terminates`.) -/
+theorem format_total (lower : Bytes → Bytes) (fstr : Bytes) :
+    (Format.parse lower fstr).isPanic = false ∧
+    ∀ f name, WireFields.WF f → (WireFields.value f name).isPanic = false ∧ ∃ its, WireFields.items f = .ok its := by
+  refine ⟨Format.parse_noPanic lower fstr, ?_⟩
+  intro f name hf
+  have := value_total f name hf
+  exact ⟨this.1, this.2.2.1⟩
+
+example : Format.parse id [123, 109, 115, 103, 125, 32, 123, 118, 97, 114, 115, 58, 97, 125]
+    = .ok [.msg [], .const [32], .var [97]] := by decide          -- "{msg} {vars:a}"
+example : Format.parse id [123, 116, 115, 46, 102, 111, 114, 109, 97, 116, 40, 41, 125] = .ok [.ts []] := by decide   -- "{ts.format()}": accepted, empty layout
+example : Format.parse id [123, 109, 115, 103] = .err := by decide                                                      -- "{msg": no closing brace
+
+/-- **`eval_total`.** In C05's model of the WHERE evaluator an accepted filter is a total function `Event → Bool` built from
+total string functions; the one place where the Go closure indexes into the event is `Fields.Value`, which C05 models with
+its panic visible (`Fields.valueP … = none`) and then masks (`Fields.value`). On every stored event — well-formed fields —
+no look-up an evaluation can make (any field name) is that panic, so the masked function *is* the code's behaviour: every
+accepted filter answers on every stored event. -/
+theorem eval_total (env : Where.Env) (e : Option Where.Expr) (flt : Where.Pred) (_hb : Where.buildWhere env e = .ok flt)
+    (ev : Where.Event) (h : WireFields.WF ev.fields) (name : Bytes) :
+    Fields.valueP ev.fields name = some (Fields.value ev.fields name) ∧ (flt ev = true ∨ flt ev = false) := by
+  have hw := C13KV.WF_bridge ev.fields h
+  obtain ⟨ps, hp⟩ := hw
+  refine ⟨?_, by cases flt ev <;> simp⟩
+  rw [Fields.valueP_wf ev.fields name ps hp]
+  simp [Fields.value, Fields.valueP_wf ev.fields name ps hp]
+
 /-! ## recursion depth (finding F25) -/
 
 /-- **Answers every request — partial**: with a stack of `budget` frames, a text with at most `budget` opening
@@ -215,6 +333,16 @@ that exhausts it — the code has no depth bound, and stack exhaustion is fatal 
 theorem cex_nesting_exhausts_stack (budget : Nat) :
     (Nesting.parse budget (List.replicate (budget + 1) 40)).isPanic = true :=
   Nesting.scan_overflow budget budget 0 0 (by omega)
+
+/-- **With a nesting guard the statement holds for every text**: if every parser entry point first rejects texts nested
+deeper than `max` (the regenerated facts `lqlNestingGuard`, `lqlMaxNesting` — `false`, `0` on a tree without the guard) and
+the stack holds `max` frames, no text exhausts it. (1 000 levels cost about 5 MB of the 1 000 MB a goroutine may use:
+measured by the harness, depth 2 000 is parsed with the limit lowered to 64 MB.) -/
+theorem answers_every_request_guarded (hg : Generated.C13.lqlNestingGuard = true) (budget : Nat)
+    (hb : Generated.C13.lqlMaxNesting ≤ budget) (s : Bytes) : (Nesting.parseNow budget s).isPanic = false := by
+  unfold Nesting.parseNow
+  rw [hg]
+  exact Nesting.parseG_guarded _ budget hb s
 
 /-! ## position strings -/
 
@@ -255,22 +383,44 @@ theorem cex_escapeJson_fffd_before_fix (fuel i start : Nat) (e : Bytes) (hi : i 
 
 /-! ## the full statement -/
 
-/-- **C13 at full strength** (kept as a definition: it is false on the current tree through F25 only): every request body is
-answered with a result or an error by the decoders; every position string by the position parser; the escaper returns;
-whatever a Write stores is readable; and no LQL text exhausts the stack. -/
+/-- **C13 at full strength**: every request body is answered with a result or an error by the decoders, within a bounded number
+of steps; every position string by the position parser; the escaper returns; whatever a Write stores is readable; format
+strings are total; and no LQL text exhausts the stack (for the parser entry points as `/repo` has them now). -/
 def C13_full : Prop :=
   (∀ (kv : Bytes → Option Bytes) (buf : Bytes), IsGoSlice buf →
-    (wpDecode kv buf).isPanic = false ∧ (unmarshalQueryRequest buf).isPanic = false) ∧
+    (wpDecode kv buf).isPanic = false ∧ (wpDecode kv buf).isOutOfFuel = false ∧ (unmarshalQueryRequest buf).isPanic = false) ∧
   (∀ s, (PosStr.applyStatePos s).isPanic = false) ∧
-  (∀ s, (EscapeJson.escapeJson Generated.C13.escapeJsonSkipsValidRunes s).isOk = true) ∧
+  (∀ s, (EscapeJson.escapeJson Generated.C13.escapeJsonSkipsValidRunes s).isPanic = false ∧
+        (EscapeJson.escapeJson Generated.C13.escapeJsonSkipsValidRunes s).isOutOfFuel = false) ∧
   (∀ split (trim : Bytes → Bytes) unq s f, (∀ v, (trim v).length ≤ v.length) →
       WireFields.fromKV split trim unq s = some f → WireFields.WF f) ∧
-  (∃ budget, ∀ s, (Nesting.parse budget s).isPanic = false)
+  (∀ lower fstr, (Format.parse lower fstr).isPanic = false) ∧
+  (∃ budget, ∀ s, (Nesting.parseNow budget s).isPanic = false)
 
-theorem C13_full_false : ¬ C13_full := by
-  intro h
-  obtain ⟨budget, hb⟩ := h.2.2.2.2
-  have := cex_nesting_exhausts_stack budget
-  rw [hb] at this; cases this
+/-- **Where C13 stands**: everything but the last clause is proved above, so the full statement holds exactly when the LQL
+parser has its nesting guard — on the current tree the regenerated fact is `false` (open finding F25, witness
+`cex_nesting_exhausts_stack`); with `proposed-fixes/F25.diff` applied it is `true` and the statement holds. -/
+theorem C13_full_iff_guard : C13_full ↔ Generated.C13.lqlNestingGuard = true := by
+  constructor
+  · intro h
+    obtain ⟨budget, hb⟩ := h.2.2.2.2.2
+    cases hG : Generated.C13.lqlNestingGuard with
+    | true => rfl
+    | false =>
+      have hc := cex_nesting_exhausts_stack budget
+      have hb' := hb (List.replicate (budget + 1) 40)
+      unfold Nesting.parseNow Nesting.parseG at hb'
+      rw [hG] at hb'
+      simp only [Bool.false_eq_true, false_and, if_false] at hb'
+      unfold Nesting.parse at hc
+      rw [hb'] at hc; cases hc
+  · intro hg
+    refine ⟨?_, fun s => (pos_total s).2, fun s => ⟨(escapeJson_terminates s).2, (escapeJson_terminates s).1⟩, ?_,
+      fun lower fstr => (format_total lower fstr).1, ⟨Generated.C13.lqlMaxNesting, fun s =>
+        answers_every_request_guarded hg _ (Nat.le_refl _) s⟩⟩
+    · intro kv buf hb
+      exact ⟨(decode_total kv buf hb).2.2.1, (wpDrain_terminates kv default [] 0).2.2 buf, (decode_total kv buf hb).2.2.2.1⟩
+    · intro split trim unq s f ht hs
+      exact fromKV_WF split trim unq ht s f hs
 
 end Logrange.Props.C13
